@@ -225,7 +225,10 @@ def check(run):
                 'non-trivial = >= 2 input records and output / >= 3 fault runs / byte string with a non-ASCII byte')
     run.assumptions = ['a broken pipe is represented by a stream raising BrokenPipeError (no OS pipe)']
     ec.spec_mutant(run, 'Q_C15', 'R_2x2', 'no_stop_on_false', maxA=2, breakpoints=(0, 1, 2))
-    ec.run_family(run, 'C15-breakpoints', 'Q_C15', 'R_2x2', recsB='R_2x2', maxA=2 if quick else 3, maxB=2, breakpoints=tuple(range(0, 5 if quick else 7)), hdrmodes=(False, True))
+    ec.run_family(run, 'C15-breakpoints', 'Q_C15', 'R_2x2', recsB='R_2x2', maxA=2, maxB=2, breakpoints=tuple(range(0, 5 if quick else 7)), hdrmodes=(False, True))
+    if not quick:
+        # longer inputs with a smaller join table (the full product with maxA=3, maxB=2 exhausted a 21 GB heap)
+        ec.run_family(run, 'C15-breakpoints-3', 'Q_C15', 'R_2x2', recsB='R_2x2', maxA=3, maxB=1, breakpoints=tuple(range(0, 7)), hdrmodes=(False,))
     broken_pipe_csv(run, 'C15-pipe', 'Q_C15', 'R_2x2', 2 if quick else 3, recsB='R_2x2', maxB=2)
     bad_bytes(run, 3 if quick else 4)
     from .. import frontends
